@@ -6,7 +6,8 @@
    never runs out, progress of every loop.  Memory safety of the C++ and the statement and
    declaration parsers are outside every theorem here (sanitizer runs in harness/props/c10.py). *)
 From Coq Require Import List Arith NArith Bool Ascii String Lia.
-From Cb Require Import C17.Model C10.Model C10.Lexer C10.ExprParse C10.LexerTotal C10.ExprTotal C10.ExprGuard C10.PreprocTotal.
+From Cb Require Import C17.Model C10.Model C10.Lexer C10.ExprParse C10.LexerTotal C10.ExprTotal C10.ExprGuard C10.PreprocTotal
+  C10.Typedefs C10.TypedefsTotal.
 Import ListNotations.
 
 (* ------------------------------------------------------------------ lexer *)
@@ -149,7 +150,71 @@ Proof.
 Qed.
 Print Assumptions preproc_search_total_refuted.
 
+(* ------------------------------------------------------------------ declaration-level tables: typedef chains (Typedefs.v) *)
+(* Loops over the parser's TABLES consume no token; their termination is a property of the table walk itself.
+   TypeUtilityParser::resolveTypedefChain AS CODED (visited set) ends within |typedef_map_| + 1 iterations on EVERY table -
+   cycles of any length, entered from anywhere, included *)
+Theorem typedef_resolve_total : forall (t : tables) (s : string), resolve t s <> RFuel.
+Proof. exact resolve_total_l. Qed.
+Print Assumptions typedef_resolve_total.
+
+Theorem typedef_resolve_fuel_irrelevant : forall (t : tables) (s : string) k,
+  resolve_loop (S (List.length (tm t)) + k) t [] s = resolve t s.
+Proof. exact resolve_fuel_irrelevant_l. Qed.
+Print Assumptions typedef_resolve_fuel_irrelevant.
+
+(* ... and it is not just any terminating function: where the chain of a name ends (reference semantics [walk]:
+   follow typedef_map_ until a target that is no key, or a self-mapped anonymous struct), the loop returns the chain's end *)
+Theorem typedef_resolve_computes_chain : forall (t : tables) (s : string) n r, walk t s n r -> resolve t s = RDone r.
+Proof. exact resolve_walk_l. Qed.
+Print Assumptions typedef_resolve_computes_chain.
+
+(* a chain that ends has fewer loop-backs than typedef_map_ has entries *)
+Theorem typedef_chain_short : forall (t : tables) (s : string) n r, walk t s n r -> n < List.length (tm t) + 1.
+Proof. exact walk_short. Qed.
+Print Assumptions typedef_chain_short.
+
+(* where the chain does NOT end (it runs into a cycle, through the start or not), the answer is "" - the caller's
+   "Unknown type: ..." diagnostic, exit status 1 *)
+Theorem typedef_cycle_is_unknown_type : forall (t : tables) (s : string),
+  (forall n r, ~ walk t s n r) -> resolve t s = RDone EmptyString.
+Proof. exact resolve_cycle_unknown_l. Qed.
+Print Assumptions typedef_cycle_is_unknown_type.
+
+(* typedef BASE ALIAS; stores the END of BASE's chain (flattened): the stored value is no alias of something else at
+   that moment.  Only  typedef struct TAG {..} ALIAS;  stores a name unflattened (ALIAS -> TAG) - the one way a cycle
+   can be closed, which is what the declaration-level generators of harness/props/c10.py aim at *)
+Theorem typedef_alias_registered_flat : forall (t : tables) base alias t',
+  td_step t (DTAlias base alias) = (t', None) ->
+  exists v, td_lookup (tm t') alias = Some v /\ (td_lookup (tm t) v = None \/ td_lookup (tm t) v = Some v).
+Proof. exact alias_registered_flat_l. Qed.
+Print Assumptions typedef_alias_registered_flat.
+
+(* why the visited SET is needed (seeded change C10-3 replaced it by "did the chain come back to the name it started
+   from"): that loop does not terminate on the tables of a three-line program - typedef struct T {..} A; typedef A C;
+   typedef struct A {..} T; - when asked for C: the chain C -> T -> A -> T -> ... never meets C again *)
+Theorem typedef_start_only_check_total_refuted :
+  ~ forall (prog : list decl) (s : string), exists f, startonly_loop f (fst (td_run empty_tables prog)) s s <> RFuel.
+Proof.
+  intros H. destruct (H rho_program "C"%string) as [f Hf]. apply Hf. apply startonly_diverges_l.
+Qed.
+Print Assumptions typedef_start_only_check_total_refuted.
+
 (* the hypotheses are satisfiable / the models compute *)
+Example typedef_rho_tables :
+  tm (fst (td_run empty_tables rho_program)) = [("A", "T"); ("C", "T"); ("T", "A")]%string /\
+  snd (td_run empty_tables rho_program) = None /\
+  map (resolved (fst (td_run empty_tables rho_program))) ["A"; "C"; "T"]%string = [""; ""; ""]%string.
+Proof. vm_compute. repeat split; reflexivity. Qed.
+Example typedef_chain_sample :
+  let t := fst (td_run empty_tables [DTPrim "int[3]" "V"; DTStruct "S" "P"; DTStruct "P" "Q"; DTAlias "Q" "R"; DTAnon "N"]%string) in
+  map (resolved t) ["V"; "P"; "Q"; "R"; "N"; "S"; "Z"]%string = ["int[3]"; "S"; "S"; "S"; "N"; "S"; ""]%string /\
+  walk t "Q"%string 1 "S"%string.
+Proof.
+  split; [vm_compute; reflexivity|].
+  eapply W_step with (next := "P"%string) (v := "S"%string); [vm_compute; reflexivity|discriminate|vm_compute; reflexivity|].
+  apply W_out; [vm_compute; reflexivity|discriminate|vm_compute; reflexivity].
+Qed.
 Example dash_d_empty_name : fst (dash_d (s2l "=5")) = [] /\ snd (dash_d (s2l "=5")) = s2l "5".
 Proof. vm_compute. auto. Qed.
 Example dash_d_plain : dash_d (s2l "DEBUG") = (s2l "DEBUG", s2l "1").
